@@ -44,6 +44,8 @@ def run(chk, orch):
             opts = common.random_opts(chk.rng, spec)
             spec["n_exp"] = 1
             spec["n_bams"] = 1
+            spec["split_gene"] = 1 if k % 2 == 0 else spec.get("split_gene", 0)     # consecutive gene-info records with one span
+            spec["long_locus"] = 1 if k % 4 == 1 else spec.get("long_locus", 0)
             if opts.get("read_group") == "file_name":
                 opts["read_group"] = "tag"
             c1, c2 = common.random_cell(chk.rng), common.random_cell(chk.rng)
@@ -82,7 +84,17 @@ def run(chk, orch):
                 chk.runs += 2
                 chk.events_simulated += res.get("events", 0)
                 if res["first"]["exit"] != 0:
-                    chk.probes["first_run_failed_skipped"] += 1
+                    # the saving run itself re-reads its intermediate files in the second stage: a failure there is a broken
+                    # round trip inside one run (failures before anything was saved are not judged here)
+                    tail = res["first"].get("log_tail") or ""
+                    if "construct_models_in_parallel" in tail or "process_assigned_reads" in tail or "deserialize" in tail \
+                            or "load_read_info" in tail:
+                        chk.evaluations += 1
+                        chk.violation("reuse", {"files": "<saving run fails while re-reading its own intermediate files>"},
+                                      "the run that saves the assignments fails in its second stage: %s" % tail[-500:],
+                                      {"engine": "pipeline", "oracle": "module:checks.c15", "kind": "P", "args": a, "hashseed": c2["hashseed"]})
+                    else:
+                        chk.probes["first_run_failed_skipped"] += 1
                     continue
                 chk.evaluations += 1
                 chk.distinct.add("P" + json.dumps([rounds, tag[1], c2["hashseed"], c2["threads"], res["second"].get("placement")]))
@@ -110,6 +122,8 @@ def replay(doc, orch):
         if not r.get("ok"):
             return False, "harness: %s" % r.get("err")
         res = r["res"]
+        if res["first"]["exit"] != 0:
+            return True, "saving run exit %s\n%s" % (res["first"]["exit"], res["first"].get("log_tail"))
         s = res.get("second") or {}
         if s.get("exit") != 0:
             return True, "second run exit %s\n%s" % (s.get("exit"), s.get("log_tail"))
